@@ -36,6 +36,7 @@ MODULES = ["Klong.Props.C14"]
 THEOREMS = [
     "Klong.C14.answer_is_own",
     "Klong.C14.answer_at_most_once",
+    "Klong.C14.delivered_only_by_recv",
     "Klong.C14.no_stuck_waiter",
     "Klong.C14.no_stuck_waiter_decidable",
     "Klong.C14.fixed_cleanup_never_crashes",
@@ -46,6 +47,7 @@ THEOREMS = [
     "Klong.C14.cut_anywhere_incomplete",
     "Klong.C14.loss_anywhere_fails_pending",
     "Klong.C14.server_error_propagates",
+    "Klong.C14.eof_listener_progress",
     "Klong.C14.pinned_stuck_waiter",
     "Klong.C14.pinned_no_stuck_waiter_fails",
 ]
@@ -268,13 +270,20 @@ def gen_orders(rng, thorough):
             stream = [[k, k] for k in perm]
             pts = cut_classes(stream)
             _, total = stream_layout(stream)
-            if thorough and n <= 2:
-                pts = list(range(total + 1))
             pairs = [(a, b) for a in pts for b in pts if a <= b]
             if not thorough:
-                pairs = rng.sample(pairs, min(len(pairs), 30 if n < 3 else 16))
-            elif n == 3:
-                pairs = rng.sample(pairs, min(len(pairs), 400))
+                pairs = rng.sample(pairs, min(len(pairs), 20 if n < 3 else 10))
+            else:
+                # every byte offset as a single cut, all pairs of class representatives (sampled
+                # for three frames), plus random pairs of arbitrary offsets
+                every = [(a, a) for a in range(total + 1)]
+                anyp = [(a, b) for a in range(total + 1) for b in range(a, total + 1)]
+                if n == 1:
+                    pairs = anyp
+                else:
+                    if n == 3:
+                        pairs = rng.sample(pairs, min(len(pairs), 250))
+                    pairs = every + pairs + rng.sample(anyp, 200)
             for a, b in pairs:
                 pre = interleave(rng, [[["K", k]] * 3 for k in range(n)]) + [["IOS"]]
                 step = rng.random() < 0.5
@@ -548,12 +557,12 @@ def run(ctx):
             kernel_trace_obligation(ctx, variant, rec[0])
         gens = [
             gen_orders(ctx.rng, not quick),
-            gen_loss(ctx.rng, not quick, 120),
-            gen_race(ctx.rng, not quick, 150),
-            gen_close(ctx.rng, not quick, 400 if quick else 4000),
-            gen_after_gone(ctx.rng, 250 if quick else 2500),
-            gen_odd_frames(ctx.rng, 250 if quick else 2500),
-            gen_random(ctx.rng, 500 if quick else 6000, 18 if quick else 30),
+            gen_loss(ctx.rng, not quick, 80),
+            gen_race(ctx.rng, not quick, 100),
+            gen_close(ctx.rng, not quick, 220 if quick else 2500),
+            gen_after_gone(ctx.rng, 130 if quick else 1500),
+            gen_odd_frames(ctx.rng, 130 if quick else 1500),
+            gen_random(ctx.rng, 260 if quick else 3500, 18 if quick else 30),
         ]
         for g in gens:
             for case in g:
